@@ -101,6 +101,9 @@ fn check_query(query: &Value, st: &mut Stats, nontrivial: bool) {
     want_c.sort();
     let size = canon(query).len() as u64;
     let case = || json!({"query": query});
+    // the plugin refuses a section whose text mentions "grid_search" (its error message says so): for those sections a
+    // refusal is accepted, an expansion is accepted only if no generated query keeps a grid section
+    let mentions = query.get("grid_search").map(|g| g.to_string().contains("grid_search")).unwrap_or(false);
     for route in ["plugin.process", "apply_input_plugins"] {
         st.evaluations += 1;
         st.transitions += 1;
@@ -121,7 +124,22 @@ fn check_query(query: &Value, st: &mut Stats, nontrivial: bool) {
         let comp = format!("grid_search.{}", route);
         match got {
             Err(p) => st.violation(&comp, "no_panic", size, || p.clone(), case),
+            Ok(Err(_)) if mentions => st.pass("section_that_mentions_its_own_name_refused"),
             Ok(Err(e)) => st.violation(&comp, "expands_without_error", size, || e.clone(), case),
+            Ok(Ok(list)) if mentions => {
+                // accepted although the section mentions its own name: the expansion must still leave no grid section behind
+                let product: usize = query["grid_search"].as_object().map(|m| m.values().filter_map(|v| v.as_array()).map(|a| a.len()).product()).unwrap_or(1);
+                if list.len() == product {
+                    st.pass("count_is_product_of_sizes");
+                } else {
+                    st.violation(&comp, "count_is_product_of_sizes", size, || format!("{} queries, expected {}", list.len(), product), case);
+                }
+                if list.iter().all(|q| q.get("grid_search").is_none()) {
+                    st.pass("no_grid_section_left");
+                } else {
+                    st.violation(&comp, "no_grid_section_left", size, || "a generated query still has a grid_search key".to_string(), case);
+                }
+            }
             Ok(Ok(list)) => {
                 if list.len() == want.len() {
                     st.pass("count_is_product_of_sizes");
@@ -145,6 +163,56 @@ fn check_query(query: &Value, st: &mut Stats, nontrivial: bool) {
             }
         }
     }
+}
+
+
+/// options that are, contain or mention a grid section: exact key at the top of an option, deeper inside it, inside an
+/// array, as a string value, as part of a key
+fn special_options() -> Vec<Value> {
+    vec![
+        json!({"name": "sweep", "grid_search": {"speed": [10, 20, 30]}}),
+        json!({"grid_search": {"speed": [10, 20]}}),
+        json!({"grid_search": 7}),
+        json!({"grid_search": []}),
+        json!({"m9": {"grid_search": {"x": [1, 2]}}}),
+        json!({"m9": [{"grid_search": {"x": [1]}}]}),
+        json!([{"grid_search": {"x": [1, 2]}}]),
+        json!("grid_search"),
+        json!("run_grid_search_1"),
+        json!({"grid_search_id": 1}),
+        json!({"m9": "mentions grid_search"}),
+    ]
+}
+
+fn mention_queries() -> Vec<Value> {
+    let mut out = vec![];
+    for special in special_options() {
+        for size in 1..=3usize {
+            for pos in 0..size {
+                for others in [0usize, 1] {
+                    // others: ordinary scalars / ordinary objects around the special option
+                    let opts: Vec<Value> = (0..size).map(|i| if i == pos { special.clone() } else if others == 0 { json!(i) } else { json!({"name": format!("plain{}", i)}) }).collect();
+                    for second in [None, Some(json!([1, 2])), Some(json!([{"k": 1}, {"k": 2}]))] {
+                        for first in [true, false] {
+                            let mut gs = Map::new();
+                            if let (Some(x), true) = (&second, first) {
+                                gs.insert("aa_other".to_string(), x.clone());
+                            }
+                            gs.insert("scenario".to_string(), Value::Array(opts.clone()));
+                            if let (Some(x), false) = (&second, first) {
+                                gs.insert("zz_other".to_string(), x.clone());
+                            }
+                            if second.is_none() && !first {
+                                continue;
+                            }
+                            out.push(json!({"origin_vertex": 0, "grid_search": Value::Object(gs)}));
+                        }
+                    }
+                }
+            }
+        }
+    }
+    out
 }
 
 const KINDS: usize = 5;
@@ -248,6 +316,13 @@ pub fn run(tier: Tier) -> i32 {
     for q in [json!({}), json!({"origin_vertex": 0, "destination_vertex": 3}), json!({"a": [1, 2, 3], "b": {"c": []}})] {
         check_query(&q, &mut st, false);
     }
+    // options that carry or mention the section's own name, at every position among ordinary options
+    let mut mention_cases = 0u64;
+    for q in mention_queries() {
+        mention_cases += 1;
+        check_query(&q, &mut st, true);
+    }
+    st.notes.insert(format!("{} queries whose grid options carry or mention the name of the grid section", mention_cases));
     st.sample(4, || json!({"grid_search": {"alpha": [0, "v0_1"], "beta": [{"m1": "o0"}]}, "origin_vertex": 0}));
     finish(
         &info,
@@ -255,7 +330,8 @@ pub fn run(tier: Tier) -> i32 {
         "state = one query object: 1-3 grid fields x sizes x element kinds {scalar, object with 1 key, object with 2 keys, mixed, object with a key that is also a field of the original query} x every key order of the grid section x {no, three} extra fields x grid section first/last; transition = one expansion through GridSearchPlugin::process or apply_input_plugins (flattening); oracle = reference Cartesian product compared as canonical multiset; non-trivial = product size > 1",
         true,
         json!({"max_grid_fields": max_fields, "sizes": sizes, "element_kinds": KINDS, "cases_in_worker_processes": cs.len()}),
-        vec!["object-valued choices of different grid fields use disjoint keys (two grid fields offering the same key cannot yield one distinct query per combination under any order, so the statement does not define that case); an option whose key is also a field of the original query must replace it - otherwise different options yield the same query twice".into()],
+        vec!["object-valued choices of different grid fields use disjoint keys (two grid fields offering the same key cannot yield one distinct query per combination under any order, so the statement does not define that case); an option whose key is also a field of the original query must replace it - otherwise different options yield the same query twice".into(),
+            "a grid section whose text mentions 'grid_search' is refused by the plugin on purpose (its error message says so): for such sections a refusal is accepted, and an expansion is accepted only if it has the product size and leaves no grid section in any generated query".into()],
     )
 }
 
